@@ -186,20 +186,137 @@ def worker_i(job):
     return (rep.cov, cands.items, rep.inconclusive)
 
 
+def worker_s(job):
+    """headers across real stabilisations: blocks arrive one by one, state::ingest_stable_blocks_into_utxoset (real, with the real
+    UTXO ingestion and the real BlockHeaderStore::insert_block) runs after each arrival and is re-entered while it reports Paused;
+    the slicing predicate pauses at nondeterministically chosen calls (at most `budget` pauses).  After every call - paused or
+    finished - every range request is answered by get_block_headers_internal and compared with one header per height"""
+    n, thr, content, budget = job
+    from checks import histlib as HL
+    from mirsym import ledger as L
+    prog = PROG
+    rep = H.Report(PROP, 'quick')
+    cands = Cands()
+    st = Stats()
+    hist = HL.History([i for i in range(1, n)], content)
+    SH0 = 3
+    seen = set()
+    info = dict(blocks=n, threshold=thr, content={str(k): v for k, v in content.items()})
+
+    def scenario(it):
+        from checks.c20 import tree_blocks
+        state_ = dict(left=budget, calls=0, pauses=[])
+
+        def slicer(it_):
+            state_['calls'] += 1
+            if state_['calls'] == 1 or state_['left'] <= 0:
+                return False            # the first call of a round never pauses (the instruction counter starts at 0)
+            if it_.choose(2, 'pause') == 1:
+                state_['left'] -= 1
+                state_['pauses'].append(state_['calls'])
+                return True
+            return False
+        w = HL.World(it, prog, hist, thr=SInt(thr, 'u32'), sh=SH0, slicer=slicer)
+        install_header_hash(it, prog)
+        heights = MapV('StableBTreeMap')
+        headers = MapV('StableBTreeMap')
+        for h in range(SH0):
+            heights.insert(it, SInt(h, 'u32'), btc.bh(1000 + h))
+            headers.insert(it, btc.bh(1000 + h), Agg('BlockHeaderBlob', [Cell(VecV([Cell(SInt(1000 + h, 'u64')), Cell(SInt(1000 + h - 1 if h else 0, 'u64'))]))]))
+        store = H.mk_struct(prog, 'BlockHeaderStore', block_headers=headers, block_heights=heights)
+        d = prog.src.find_adt(['GenericState'])
+        dm = prog.src.find_adt(['metrics', 'Metrics'])
+        metrics = Agg('Metrics', [Cell(Opaque(f)) for f in dm.fields])
+        svals = dict(utxos=w.us, unstable_blocks=w.ub, stable_block_headers=store, metrics=metrics)
+        state = Agg('GenericState', [Cell(svals.get(f, Opaque(f))) for f in d.fields])
+        sref = Ref(Cell(state))
+        it.overrides['with_state'] = lambda it_, k, r, a: it_.call_value(a[0], [sref])
+        it.overrides['NextBlockHeaders::remove_until_height'] = lambda it_, k, r, a: UNIT
+        it.overrides['NextBlockHeaders::remove'] = lambda it_, k, r, a: UNIT
+        dh = prog.src.find_adt(['bitcoin', 'blockdata', 'block', 'Header'])
+        it.overrides['<Vec as From>::from'] = lambda it_, k, r, a: a[0].f(0) if isinstance(a[0], Agg) and a[0].ty == 'BlockHeaderBlob' else a[0]
+        it.overrides['<BlockHeaderBlob as Into>::into'] = lambda it_, k, r, a: a[0].f(0)
+        it.overrides['<BlockHeaderBlob as From>::from'] = lambda it_, k, r, a: Agg('BlockHeaderBlob', [Cell(a[0])])
+
+        def enc(it_, k, r, a):
+            h = deref(a[0])
+            deref(a[1]).cells.extend([Cell(SInt(h.fields[dh.fields.index('nonce')].v.t, 'u64')),
+                                      Cell(SInt(btc.bh_id(h.fields[dh.fields.index('prev_blockhash')].v), 'u64'))])
+            return ok(SInt(80, 'usize'))
+        it.overrides['<Header as Encodable>::consensus_encode'] = enc
+        dr = prog.src.find_adt(['ic_btc_interface', 'GetBlockHeadersResponse'])
+        dsl = prog.src.find_adt(['types', 'Slicing'])
+
+        def check_all(present_n, when):
+            tip_h = SH0 + present_n - 1
+            exp_all = [(1000 + h) if h < SH0 else (h - SH0 + 1) for h in range(tip_h + 1)]
+            for s_ in range(tip_h + 1):
+                for e_ in range(s_, tip_h + 1):
+                    req = H.mk_struct(prog, 'ic_btc_interface::GetBlockHeadersRequest', start_height=SInt(s_, 'u32'), end_height=some(SInt(e_, 'u32')), network=Opaque('net'))
+                    r = it.call('get_block_headers_internal', [Ref(Cell(req))])
+                    if r.variant != 0:
+                        cands.add(kernel='s', role='in-range-request-refused-around-a-stabilisation', model=None, when=when, start=s_, end=e_, pauses=list(state_['pauses']), **info)
+                        return False
+                    resp = r.fields[0].v.f(0)
+                    hs = [c.v.cells[0].v.t for c in resp.fields[dr.fields.index('block_headers')].v.cells]
+                    if hs != exp_all[s_:e_ + 1]:
+                        cands.add(kernel='s', role='headers-differ-from-one-per-height-around-a-stabilisation', model=None, when=when, start=s_, end=e_, got=hs,
+                                  expected=exp_all[s_:e_ + 1], pauses=list(state_['pauses']), **info)
+                        return False
+            return True
+
+        present = 1
+        if not check_all(present, 'start'):
+            return
+        for b in range(2, n + 1):
+            w.push(b)
+            present += 1
+            rounds = 0
+            while True:
+                rounds += 1
+                state_['calls'] = 0
+                r = it.call('state::ingest_stable_blocks_into_utxoset', [sref])
+                paused = r.variant == [x[3] for x in dsl.variants if x[0] == 'Paused'][0]
+                seen.add('paused' if paused else 'done')
+                if not check_all(present, 'after block %d, ingestion round %d (%s)' % (b, rounds, 'paused' if paused else 'finished')):
+                    return
+                if not paused:
+                    break
+                if rounds > budget + 2:
+                    cands.add(kernel='s', role='ingestion-does-not-finish', model=None, **info)
+                    return
+        if len(tree_blocks(prog, w.ub)) < n:
+            seen.add('stabilised')
+        return len(state_['pauses'])
+
+    explore(prog, scenario, stats=st, on_panic=lambda it, e: cands.add(kernel='s', role='trap', model=None, msg=str(e)[:300], **info))
+    rep.add_stats(st, 's:across-real-stabilisations')
+    rep.cov['shapes'] += 1
+    if {'paused', 'done', 'stabilised'} <= seen:
+        rep.cov['witnesses'] += 1
+    else:
+        cands.add(kernel='s', role='no-paused-stabilisation-reached', model=None, vacuity=True, seen=sorted(seen), **info)
+    rep.sample(dict(kernel='s', blocks=n, threshold=thr, transactions_per_block=content, pause_budget=budget, paths=st.paths))
+    return (rep.cov, cands.items, rep.inconclusive)
+
+
 def worker(job):
-    return worker_u(job[1]) if job[0] == 'u' else worker_i(job[1])
+    return dict(u=worker_u, i=worker_i, s=worker_s)[job[0]](job[1])
 
 
 def native_headers(mid, start, end, n_unstable=3):
     """real canister: a chain, part of it stable, optionally paused in the middle of ingesting the next anchor"""
-    ops = [dict(op='headers_across_boundary', unstable=n_unstable, pause=bool(mid), start=start, end=end)]
+    ops = [dict(op='headers_across_boundary', unstable=n_unstable, pause=bool(mid), resume=True, start=start, end=end)]
     return C.run_native([dict(ops=ops)], tag='c07')[0][-1]
 
 
 def confirm(cand, known):
     doc = dict(property=PROP, role=cand['role'], summary={k: v for k, v in cand.items() if k not in ('shape',)}, problems=[])
-    if cand['kernel'] == 'i':
-        res = native_headers(cand.get('mid_ingestion'), None, None)
+    if cand.get('native'):
+        doc['problems'] = cand['problems']
+        return 'violation', doc
+    if cand['kernel'] in ('i', 's'):
+        res = native_headers(cand.get('mid_ingestion', True), None, None)
         doc['native'] = res
         bad = [q for q in res.get('queries', []) if q.get('problem')]
         if bad:
@@ -213,13 +330,20 @@ def confirm(cand, known):
     return 'violation', doc
 
 
-def translator_validation(rep):
-    res = native_headers(False, None, None)
-    ok_ = [q for q in res.get('queries', []) if not q.get('problem')]
-    if res.get('queries') and len(ok_) == len(res['queries']):
-        rep.cov['traces_validated_against_impl'] += len(ok_)
-    else:
-        rep.inconclusive = 'native quiescent header ranges: %s' % str(res)[:400]
+def translator_validation(rep, cands):
+    """the real canister: quiescent, paused in the middle of ingesting the anchor, and after the paused ingestion finished"""
+    for mid in (False, True):
+        for nu in (2, 3):
+            res = native_headers(mid, None, None, nu)
+            qs = res.get('queries', []) if isinstance(res, dict) else []
+            bad = [q for q in qs if q.get('problem')]
+            if mid and not res.get('paused'):
+                rep.inconclusive = 'native run did not pause: %s' % str(res)[:200]
+            elif qs and not bad:
+                rep.cov['traces_validated_against_impl'] += len(qs)
+            else:
+                cands.add(kernel='n', role='native-headers-' + ('around-a-paused-ingestion' if mid else 'quiescent'), model=None, native=True, mid_ingestion=mid, unstable=nu,
+                          problems=[str(q) for q in bad[:3]] or [str(res)[:300]])
 
 
 def main():
@@ -243,9 +367,15 @@ def main():
         for sn in (0, 1, 3):
             for mid in (0, 1):
                 jobs.append(('i', (cl, sn, mid)))
+    jobs.append(('s', (3, 1, {1: [10], 2: [11]}, 1)))
+    jobs.append(('s', (4, 2, {1: [10]}, 1)))
+    if tier != 'quick':
+        jobs.append(('s', (4, 2, {1: [10], 2: [11]}, 2)))
+        jobs.append(('s', (4, 1, {1: [], 2: [10, 12]}, 2)))
+        jobs.append(('s', (5, 3, {1: [10, 12], 2: [13]}, 1)))
     for part in parallel(jobs, worker):
         merge_partial(rep, cands, part)
-    translator_validation(rep)
+    translator_validation(rep, cands)
     settle(rep, PROP, cands, confirm, H.load_known(PROP), cap=3, describe=lambda d: str(d.get('problems'))[:400])
     return rep.finish()
 
